@@ -306,20 +306,21 @@ set_filter_v (pixman_image_t *im, int v)
 }
 
 static pixman_bool_t
-set_clip_v (pixman_image_t *im, int v)
+set_clip_v (pixman_image_t *im, int vv)
 {
+    int v = vv % 8, use16 = vv / 8;	/* 8 + k: the same region through the region16 setter */
     pixman_box32_t bx[2] = { { 0, 0, 3, 2 }, { 2, 3, 7, 5 } };
     pixman_region32_t reg;
     pixman_bool_t r;
-    int n = (v == 1 || v == 6) ? 1 : 2;
+    int n = v == 7 ? 0 : (v == 1 || v == 6) ? 1 : 2;	/* 7: the empty region */
     if (v == 0)
-	return pixman_image_set_clip_region32 (im, NULL);
+	return use16 ? pixman_image_set_clip_region (im, NULL) : pixman_image_set_clip_region32 (im, NULL);
     if (v == 1) { bx[0].x1 = 1; bx[0].y1 = 0; bx[0].x2 = 6; bx[0].y2 = 3; }
     if (v == 6) { bx[0].x1 = 0; bx[0].y1 = 1; bx[0].x2 = 6; bx[0].y2 = 3; }	/* x1 <-> y1 of 1 */
     if (v == 5) { bx[0].x2 = 2; bx[0].y2 = 3; }	/* x2 <-> y2 of the first rectangle of 2 */
     if (v == 3) bx[1].x2 = 6;			/* only the last rectangle differs from 2 */
     if (v == 4) bx[0].x2 = 4;			/* only the first rectangle differs from 2 */
-    if (cfg_variant & 4)
+    if (use16)
     {
 	pixman_region16_t r16;
 	pixman_box16_t b[2];
